@@ -197,6 +197,21 @@ class C07(F.Check):
                 continue
             seen_sig.add(sig)
             lists.append((gn, ents))
+        # units that all carry the SAME power of pi still have rational pairwise ratios (the property's domain): derive such
+        # lists from generated rational ones, plus two fixed cases where a factor of 3 meets pi
+        def with_pi(e, k):
+            spell = {1: "* Magnitude<Pi>{}", -1: "/ Magnitude<Pi>{}", 2: "* pow<2>(Magnitude<Pi>{})"}[k]
+            return Ent("decltype(%s{} %s)" % (e.cxx, spell), e.unit.scaled(U.PI.pow(k)), False, label="%s*pi^%d" % (e.label, k))
+        mm = g["length"][0]
+        pil = [("length_pi_common", [with_pi(scaled(mm, 10, 1), 1), with_pi(scaled(mm, 12, 1), 1)]),
+               ("length_pi_common", [with_pi(scaled(mm, 2, 1), 1), with_pi(scaled(mm, 3, 1), 1)]),
+               ("length_pi_common", [with_pi(scaled(mm, 12, 1), 1), with_pi(scaled(mm, 10, 1), 1), with_pi(scaled(mm, 9, 4), 1)]),
+               ("length_pi_common", [with_pi(scaled(mm, 6, 1), -1), with_pi(scaled(mm, 15, 2), -1)])]
+        for j, (gn, ents) in enumerate(list(lists)):
+            if gn != "fixed" and j % (6 if self.tier == "quick" else 3) == 0 and all(not e.named or True for e in ents):
+                k = rng.choice([1, -1, 2])
+                pil.append((gn + "_pi_common", [with_pi(e, k) for e in ents]))
+        lists += pil
         out = []
         nexcl = 0
         for gn, ents in lists:
